@@ -127,6 +127,11 @@ def read_policy_from_file(path):
             result[name] = {'preset': policy}
         else:
             invalid_sections = sections - policy_sections - object_types
+            if len(invalid_sections) == 0:
+                raise ValueError(
+                    "Policy '{}' mixes policy sections and object "
+                    "types.".format(name)
+                )
             raise ValueError(
                 "Policy '{}' contains an invalid section named: "
                 "{}".format(name, invalid_sections.pop())
